@@ -59,12 +59,18 @@ func exportProblem(b *built, f *Func) string {
 	return ""
 }
 
-// Watchdogs for a real call (never a verdict: a call that does not return is reported as
-// inconclusive). The reference has already terminated within maxSteps loop iterations, so
-// the real code needs microseconds; candidates tried during minimisation get less.
+// Watchdogs for a real call. A call that does not return is a verdict only when the
+// reference interpreter finished the same call in fewer than nontermStmtLimit statements:
+// then seconds of wall clock stand against microseconds of work whatever the machine's
+// load, and the call is reported as call-does-not-terminate. Otherwise a timeout is
+// inconclusive. Candidates tried during minimisation get shorter watchdogs (the minimal
+// case is re-run under the full one before it is reported).
 const (
-	callTimeout     = 3 * time.Second
-	minimiseTimeout = 300 * time.Millisecond
+	callTimeout            = 10 * time.Second
+	minimiseTimeout        = 300 * time.Millisecond
+	minimiseNontermTimeout = 1 * time.Second
+	nontermStmtLimit       = 10000
+	mkNonterm              = "call-does-not-terminate"
 )
 
 type timeoutKey struct{}
@@ -213,6 +219,11 @@ func runCalls(ctx context.Context, b *built, c Case) Verdict {
 		}
 		real := realCall(ctx, b, c.F, args)
 		if real.Timeout {
+			if in.Stmts() < nontermStmtLimit {
+				vd.Kind, vd.CallIdx, vd.MKind, vd.Ref, vd.Real, vd.Tags = vdMismatch, i, mkNonterm, ref, real, seqTags(acc, in)
+				vd.Real.Err = "" // the error text carries the watchdog's duration
+				return vd
+			}
 			vd.Kind, vd.CallIdx, vd.Ref, vd.Real = vdTimeout, i, ref, real
 			return vd
 		}
@@ -301,7 +312,7 @@ func normMsg(msg string) string {
 // secondary ones only describe the path taken. Signatures carry the primary tags, or the
 // secondary ones when there is no primary tag.
 var primaryPrefixes = []string{"wrap.", "cast.trunc.", "cast.sat.", "cast.f2i-sat.", "sc.", "bool.nonnormal", "float.nan-compare", "divzero", "prec.", "pow.exp-", "hint."}
-var secondaryPrefixes = []string{"cast.i2f-inexact", "cast.i2f-unsigned-msb", "cast.i2f-negative", "cast.f2i-fraction", "cmp.", "stateful.reloaded", "loop.", "if.", "float.nan", "float.inf"}
+var secondaryPrefixes = []string{"ctl.", "cast.i2f-inexact", "cast.i2f-unsigned-msb", "cast.i2f-negative", "cast.f2i-fraction", "cmp.", "stateful.reloaded", "loop.", "if.", "float.nan", "float.inf"}
 
 func hasPrefixOf(tag string, ps []string) bool {
 	for _, p := range ps {
